@@ -193,3 +193,138 @@ Example C19_intake_nonvacuous :
   (* ... while an UNTYPED Array keeps the donor's inner wrappers *)
   retains sites_ok_example tables_ok OwnPlain false (TArray None) (VWrapper [VWrapper [VAtom]]) = true.
 Proof. vm_compute. repeat split. Qed.
+
+(* ---- generated layer, round 4: the collection wrappers' __init__ / copy / __deepcopy__ / pickle support re-translated from the source on every run (harness/genmods/py2v_alias.py -> Gen/AliasSrc.v) into the identity heap of Struct/CopyHeap.v; bridging lemmas in Struct/AliasSrcProofs.v ---- *)
+From TP Require Import Base.PyOpsAlias Gen.AliasSrc Struct.AliasSrcProofs.
+
+Theorem C19_src_is_immutable :
+  forall (E : aenv)
+           (rec : CopyHeap.heap -> CopyHeap.child -> res (CopyHeap.heap * CopyHeap.child)) 
+           (b : aval) (fimm : bool) (ib : ibind) (nm : aval) (h : CopyHeap.heap),
+         Src_ImmutableMixin_is_immutable E rec (wview b fimm ib nm) h = Ok (h, abool (simm fimm ib)).
+Proof. exact src_is_immutable. Qed.
+
+(* _get_defensive_copy_if_needed on a fresh plain container deep-copies exactly when the wrapper is bound to an immutable owner / field *)
+Theorem C19_src_defensive_copy_fresh :
+  forall (E : aenv)
+           (rec : CopyHeap.heap -> CopyHeap.child -> res (CopyHeap.heap * CopyHeap.child)) 
+           (b : aval) (fimm : bool) (ib : ibind) (nm : aval) (k : CopyHeap.okind)
+           (kids : list (pystr * CopyHeap.child)) (h : CopyHeap.heap),
+         plain_kind k = true ->
+         Src_ImmutableMixin_get_defensive_copy_if_needed E rec (wview b fimm ib nm) (ATmp k kids) h =
+         (if simm fimm ib then a_deepcopy rec (ATmp k kids) h else Ok (h, ATmp k kids)).
+Proof. exact src_defcopy_tmp. Qed.
+
+(* ... and on a heap value exactly when that holds and the value is not of an exempt type *)
+Theorem C19_src_defensive_copy_child :
+  forall (tbl : CopyHeap.loc -> option wbind) (ia : CopyHeap.loc -> pystr -> option pyval)
+           (df : pystr -> option pyval)
+           (rec : CopyHeap.heap -> CopyHeap.child -> res (CopyHeap.heap * CopyHeap.child)) 
+           (b : aval) (fimm : bool) (ib : ibind) (nm : aval) (c : CopyHeap.child) 
+           (h : CopyHeap.heap),
+         Src_ImmutableMixin_get_defensive_copy_if_needed (env_of tbl ia df) rec 
+           (wview b fimm ib nm) (AV c) h =
+         match exempt tbl h c with
+         | Ok ex => if negb ex && simm fimm ib then a_deepcopy rec (AV c) h else Ok (h, AV c)
+         | Raise e => Raise e
+         end.
+Proof. exact src_defcopy_child. Qed.
+
+(* copy() yields a new plain container of the items, never the live wrapper *)
+Theorem C19_src_list_copy :
+  forall (E : aenv)
+           (rec : CopyHeap.heap -> CopyHeap.child -> res (CopyHeap.heap * CopyHeap.child))
+           (fimm : bool) (ib : ibind) (nm : aval) (l : CopyHeap.loc) (h : CopyHeap.heap)
+           (o : CopyHeap.obj),
+         CopyHeap.get h l = Some o ->
+         CopyHeap.o_kind o = CopyHeap.KWList ->
+         Src_ListStruct_copy E rec (wview (AV (CopyHeap.CRef l)) fimm ib nm) h =
+         lift_kids (opt_copy (simm fimm ib) rec h (CopyHeap.o_kids o))
+           (fun (h1 : CopyHeap.heap) (ks : list (pystr * CopyHeap.child)) =>
+            Ok (h1, ATmp CopyHeap.KList ks)).
+Proof. exact src_list_copy. Qed.
+
+Theorem C19_src_list_copy_fresh :
+  forall (E : aenv)
+           (rec : CopyHeap.heap -> CopyHeap.child -> res (CopyHeap.heap * CopyHeap.child))
+           (fimm : bool) (ib : ibind) (nm : aval) (l : CopyHeap.loc) (h : CopyHeap.heap)
+           (o : CopyHeap.obj),
+         simm fimm ib = false ->
+         CopyHeap.get h l = Some o ->
+         CopyHeap.o_kind o = CopyHeap.KWList ->
+         (r <~ Src_ListStruct_copy E rec (wview (AV (CopyHeap.CRef l)) fimm ib nm);; a_to_child r) h =
+         Ok
+           (CopyHeap.alloc h
+              {| CopyHeap.o_kind := CopyHeap.KList; CopyHeap.o_kids := CopyHeap.o_kids o |}).
+Proof. exact src_list_copy_fresh. Qed.
+
+Theorem C19_src_deque_copy :
+  forall (E : aenv)
+           (rec : CopyHeap.heap -> CopyHeap.child -> res (CopyHeap.heap * CopyHeap.child))
+           (fimm : bool) (ib : ibind) (nm : aval) (l : CopyHeap.loc) (h : CopyHeap.heap)
+           (o : CopyHeap.obj),
+         defaults_ok E = true ->
+         simm fimm ib = false ->
+         CopyHeap.get h l = Some o ->
+         CopyHeap.o_kind o = CopyHeap.KWDeque ->
+         Src_DequeStruct_copy E rec (wview (AV (CopyHeap.CRef l)) fimm ib nm) h =
+         Ok (h, ATmp CopyHeap.KDeque (unlabel (CopyHeap.o_kids o))).
+Proof. exact src_deque_copy. Qed.
+
+Theorem C19_src_dict_copy :
+  forall (tb : CopyHeap.loc -> wbind) (ia : CopyHeap.loc -> pystr -> option pyval)
+           (df : pystr -> option pyval)
+           (rec : CopyHeap.heap -> CopyHeap.child -> res (CopyHeap.heap * CopyHeap.child))
+           (fimm : bool) (ib : ibind) (nm : aval) (l : CopyHeap.loc) (h : CopyHeap.heap)
+           (o : CopyHeap.obj),
+         CopyHeap.get h l = Some o ->
+         CopyHeap.o_kind o = CopyHeap.KWDict ->
+         Src_DictStruct_copy (env_of (fun l0 : CopyHeap.loc => Some (tb l0)) ia df) rec
+           (wview (AV (CopyHeap.CRef l)) fimm ib nm) h =
+         lift_kids (opt_copy (simm fimm ib) rec h (CopyHeap.o_kids o))
+           (fun (h1 : CopyHeap.heap) (ks : list (pystr * CopyHeap.child)) =>
+            Ok (h1, ATmp CopyHeap.KDict ks)).
+Proof. exact src_dict_copy. Qed.
+
+(* the pickled state holds a new list, not the wrapper *)
+Theorem C19_src_list_getstate :
+  forall (E : aenv)
+           (rec : CopyHeap.heap -> CopyHeap.child -> res (CopyHeap.heap * CopyHeap.child))
+           (fimm : bool) (ib : ibind) (nm : aval) (l : CopyHeap.loc) (h : CopyHeap.heap)
+           (o : CopyHeap.obj),
+         CopyHeap.get h l = Some o ->
+         CopyHeap.o_kind o = CopyHeap.KWList ->
+         Src_ListStruct_getstate E rec (wview (AV (CopyHeap.CRef l)) fimm ib nm) h =
+         lift_kids (opt_copy (simm fimm ib) rec h (CopyHeap.o_kids o))
+           (fun (h1 : CopyHeap.heap) (ks : list (pystr * CopyHeap.child)) =>
+            Ok
+              (h1,
+               ADict
+                 [(s2p "the_instance", inst_of ib); (s2p "the_array", fdesc fimm);
+                  (s2p "the_name", nm); (s2p "the_values", ATmp CopyHeap.KList ks)])).
+Proof. exact src_list_getstate. Qed.
+
+Theorem C19_src_list_setstate :
+  forall (E : aenv)
+           (rec : CopyHeap.heap -> CopyHeap.child -> res (CopyHeap.heap * CopyHeap.child))
+           (fimm : bool) (ib : ibind) (nm : aval) (ks : list (pystr * CopyHeap.child))
+           (h : CopyHeap.heap),
+         (s <~
+          Src_ListStruct_setstate E rec (AObj [])
+            (ADict
+               [(s2p "the_instance", inst_of ib); (s2p "the_array", fdesc fimm);
+                (s2p "the_name", nm); (s2p "the_values", ATmp CopyHeap.KList ks)]);;
+          r <~ a_finish_new CopyHeap.KWList s;; a_to_child r) h =
+         Ok
+           (CopyHeap.alloc h {| CopyHeap.o_kind := CopyHeap.KWList; CopyHeap.o_kids := unlabel ks |}).
+Proof. exact src_list_setstate. Qed.
+
+Print Assumptions C19_src_is_immutable.
+Print Assumptions C19_src_defensive_copy_fresh.
+Print Assumptions C19_src_defensive_copy_child.
+Print Assumptions C19_src_list_copy.
+Print Assumptions C19_src_list_copy_fresh.
+Print Assumptions C19_src_deque_copy.
+Print Assumptions C19_src_dict_copy.
+Print Assumptions C19_src_list_getstate.
+Print Assumptions C19_src_list_setstate.
